@@ -3,3 +3,4 @@ import Mistune.Unicode
 import Mistune.Toc
 import Mistune.Footnotes
 import Mistune.Cli
+import Mistune.Conv
